@@ -198,6 +198,22 @@ def sessions(tier: str, seed: int, kinds=vloop.CLIENTS):
             log, _ = cf.run(kind, plan, twice)
             logs.append(log)
             meta.append((kind, "eof+reset", refuse, "ok", "twice"))
+    # fault after fault after fault: every recovery must be as good as the first (nothing may be left over from the
+    # previous connection, no counter may run out); half a packet is pending at each fault
+    for kind in kinds:
+        for order in (("eof", "reset", "garbage-eof", "eof"), ("reset", "eof", "eof", "reset")):
+            plan = cf.Plan(refuse=0)
+            pk = cf.valid_packet(kind, 2)
+
+            def chain(s, state, plan=plan, order=order, pk=pk):
+                for j, fault in enumerate(order):
+                    t = 3.0 + 6.0 * j
+                    s.at_time(t - 0.5, lambda: max(s.readers, default=0) and not s.readers[max(s.readers)].at_eof()
+                              and s.feed(max(s.readers), pk[:len(pk) // 2]))
+                    fault_injector(kind, fault, None, t, plan)(s, state)
+            log, _ = cf.run(kind, plan, chain, t_end=70.0)
+            logs.append(log)
+            meta.append((kind, "+".join(order), 0, "ok", "fault after fault"))
     # a gateway that refuses nine attempts in a row: the pauses must grow up to the cap and stay there
     for kind in kinds:
         log, _ = cf.run(kind, cf.Plan(refuse=9), t_end=110.0)
